@@ -582,9 +582,7 @@ class TwoPortMatrix(Matrix, TwoPortMixin):
 
     @property
     def Bparams(self):
-        if not hasattr(self, '_Bparams'):
-            self._Bparams = BMatrix(self.Aparams.inv()).simplify()
-        return self._Bparams
+        return BMatrix(self.Aparams.inv()).simplify()
 
     @property
     def Gparams(self):
@@ -688,13 +686,11 @@ class AMatrix(TwoPortMatrix):
 
     @property
     def Bparams(self):
-        if not hasattr(self, '_Bparams'):
-            # Inverse
-            det = self.det().expr
-            if det == 0:
-                warn('Producing dodgy B matrix')
-            self._Bparams = BMatrix(self.inv()).simplify()
-        return self._Bparams
+        # Inverse
+        det = self.det().expr
+        if det == 0:
+            warn('Producing dodgy B matrix')
+        return BMatrix(self.inv()).simplify()
 
     @property
     def Hparams(self):
@@ -857,7 +853,7 @@ class AMatrix(TwoPortMatrix):
 
     def chain(self, TP):
 
-        return self * TP
+        return self * TP.Aparams
 
     def cascade(self, TP):
 
@@ -1151,7 +1147,7 @@ class BMatrix(TwoPortMatrix):
     def chain(self, TP):
 
         # Note reverse order compared to AMatrix.
-        return TP * self
+        return TP.Bparams * self
 
     def cascade(self, TP):
 
@@ -1191,11 +1187,9 @@ class GMatrix(TwoPortMatrix):
 
     @property
     def Bparams(self):
-        if not hasattr(self, '_Bparams'):
-            det = self.det().expr
-            self._Bparams = BMatrix(((-det / self._G12, (self._G22 / self._G12)),
-                                     (self._G11 / self._G12, -1 / self._G12))).simplify()
-        return self._Bparams
+        det = self.det().expr
+        return BMatrix(((-det / self._G12, (self._G22 / self._G12)),
+                        (self._G11 / self._G12, -1 / self._G12))).simplify()
 
     @property
     def Gparams(self):
@@ -1246,12 +1240,9 @@ class HMatrix(TwoPortMatrix):
 
     @property
     def Bparams(self):
-        if not hasattr(self, '_Bparams'):
-            self._Bparams = BMatrix(((1 / self._H12, -self._H11 / self._H12),
-                                     (-self._H22 / self._H12,
-                                     self._H22 * self._H11 / self._H12 - self._H21))).simplify()
-
-        return self._Bparams
+        return BMatrix(((1 / self._H12, -self._H11 / self._H12),
+                        (-self._H22 / self._H12,
+                        self._H22 * self._H11 / self._H12 - self._H21))).simplify()
 
     @property
     def Hparams(self):
@@ -1393,11 +1384,9 @@ class YMatrix(TwoPortMatrix):
 
     @property
     def Bparams(self):
-        if not hasattr(self, '_Bparams'):
-            det = self.det().expr
-            self._Bparams = BMatrix(((-self._Y11 / self._Y12, 1 / self._Y12),
-                                     (det / self._Y12, -self._Y22 / self._Y12))).simplify()
-        return self._Bparams
+        det = self.det().expr
+        return BMatrix(((-self._Y11 / self._Y12, 1 / self._Y12),
+                        (det / self._Y12, -self._Y22 / self._Y12))).simplify()
 
     @property
     def Hparams(self):
@@ -1479,11 +1468,9 @@ class ZMatrix(TwoPortMatrix):
 
     @property
     def Bparams(self):
-        if not hasattr(self, '_Bparams'):
-            det = self.det().expr
-            self._Bparams = BMatrix(((self._Z22 / self._Z12, -det / self._Z12),
-                                     (-1 / self._Z12, self._Z11 / self._Z12))).simplify()
-        return self._Bparams
+        det = self.det().expr
+        return BMatrix(((self._Z22 / self._Z12, -det / self._Z12),
+                        (-1 / self._Z12, self._Z11 / self._Z12))).simplify()
 
     @property
     def Hparams(self):
